@@ -21,7 +21,7 @@ from props import c15
 PROP = 'C16'
 THEOREMS = ['C16_no_lost_wakeup', 'C16_quiescent_no_idle_with_waiters', 'C16_retry_or_abort',
             'C16_block_ids_distinct']
-REFUTED = ['C16_full_refuted']
+REFUTED = ['C16_full_refuted', 'C16_late_cancel_passes_wakeup_on']
 WITNESS = '4,50,1;a1 x x o1 p1'      # the schedule behind Refuted.w_trace
 
 
@@ -165,7 +165,8 @@ def run(tier):
         'successfully, every holder releases, 50 ms pass per round and every due timer fires; the drain goes on while '
         'anything progresses (up to 1500 rounds) and stops after 12 consecutive rounds in which only timers fired and '
         'nothing is in flight, lent or ready',
-        'asyncio FIFO ready queue; callers never cancel a pending acquire(); no new requests arrive during the drain',
+        'asyncio FIFO ready queue; no new requests and no cancellations arrive during the drain (cancellations are '
+        'part of the schedules; a cancelled request counts as answered)',
     ]
     if not witness_starves:
         rep.notes.append('the schedule behind Refuted.v no longer starves on the implementation')
